@@ -66,8 +66,70 @@ func newWorld(kind string, f []string) world {
 	return nil
 }
 
+// probing: a case is first executed silently (nothing is written to the run; oracle failures are only collected
+// by signature).  A case that fails is minimised by greedy removal of requests, the minimised case is run (and
+// recorded) before the original one, so that the replay of a signature is short.
+var probing map[string]bool
+
+func sigOf(container, op, what string) string { return container + "/" + op + "/" + what }
+
 func fail(r *hx.Run, container, op, what, detail string) {
+	if probing != nil {
+		probing[sigOf(container, op, what)] = true
+
+		return
+	}
 	r.Fail(container+"-"+what, detail, map[string]string{"container": container, "op": op, "oracle": what})
+}
+
+// probe executes a case silently and returns the signatures of the oracle failures it produced.
+func probe(r *hx.Run, ops []string) map[string]bool {
+	probing = map[string]bool{}
+	defer func() { probing = nil }()
+	execCase(r, 0, ops, false)
+
+	return probing
+}
+
+var shrunkSigs = map[string]bool{}
+
+// shrink removes requests (never the constructor line) while the failure with signature sig remains.
+func shrink(r *hx.Run, ops []string, sig string) []string {
+	cur := append([]string{}, ops...)
+	budget := 600
+	deadline := time.Now().Add(10 * time.Second) // a request that hangs in the code under test costs a watchdog period per probe
+	for pass := 0; pass < 3 && budget > 0; pass++ {
+		changed := false
+		for i := len(cur) - 1; i >= 1 && budget > 0 && time.Now().Before(deadline); i-- {
+			cand := append(append([]string{}, cur[:i]...), cur[i+1:]...)
+			budget--
+			if probe(r, cand)[sig] {
+				cur, changed = cand, true
+			}
+		}
+		if !changed {
+			break
+		}
+	}
+
+	return cur
+}
+
+// runCase: silent probe first; new failure signatures are minimised and their minimised cases recorded first.
+func runCase(r *hx.Run, sub uint64, ops []string) {
+	if len(ops) > 0 && !strings.HasPrefix(ops[0], "cb ") && len(shrunkSigs) < 8 {
+		for sig := range probe(r, ops) {
+			if shrunkSigs[sig] || len(shrunkSigs) >= 8 {
+				continue
+			}
+			shrunkSigs[sig] = true
+			if small := shrink(r, ops, sig); len(small) < len(ops) {
+				r.Count("shrunk:" + strings.Fields(ops[0])[0])
+				execCase(r, 0, small, true)
+			}
+		}
+	}
+	execCase(r, sub, ops, true)
 }
 
 // retainedAns is a collection a container handed out, kept by the harness exactly as it was returned
@@ -136,8 +198,10 @@ func scribbleRetained() {
 	retained = retained[:0]
 }
 
-func runCase(r *hx.Run, sub uint64, ops []string) {
-	r.Case(sub)
+func execCase(r *hx.Run, sub uint64, ops []string, live bool) {
+	if live {
+		r.Case(sub)
+	}
 	retained = retained[:0]
 	worlds := map[string]world{}
 	kinds := map[string]bool{}
@@ -150,7 +214,9 @@ func runCase(r *hx.Run, sub uint64, ops []string) {
 		}
 		f := strings.Fields(op)
 		if len(f) < 2 {
-			r.Line(op, "bad-op")
+			if live {
+				r.Line(op, "bad-op")
+			}
 
 			continue
 		}
@@ -159,17 +225,18 @@ func runCase(r *hx.Run, sub uint64, ops []string) {
 		line, ans := op, "bad-op"
 		if f[1] == "new" {
 			var w world
-			if (kind == "pq" || kind == "gh") && len(f) > 3 {
+			if !live {
+			} else if (kind == "pq" || kind == "gh") && len(f) > 3 {
 				r.Count("cmpkind:" + kind + "." + f[3])
 			}
-			if (kind == "shrink" || kind == "rmap") && len(f) > 2 {
+			if live && (kind == "shrink" || kind == "rmap") && len(f) > 2 {
 				ratio := f[2]
 				if len(f) > 4 {
 					ratio += "/" + f[3]
 				}
 				r.Count("cfg:" + kind + ".ratio=" + ratio)
 			}
-			if (kind == "queue" || kind == "ring") && len(f) > 2 {
+			if live && (kind == "queue" || kind == "ring") && len(f) > 2 {
 				r.Count("cfg:" + kind + ".cap=" + f[2])
 			}
 			if p := hx.Safely(func() { w = newWorld(kind, f[2:]) }); p != "" {
@@ -186,6 +253,9 @@ func runCase(r *hx.Run, sub uint64, ops []string) {
 			line = kind + " " + line
 			ans = withState(ans, w)
 		}
+		if !live {
+			continue
+		}
 		r.Line(line, ans)
 		r.Count("op:" + kind + "." + f[1])
 		a := strings.Fields(ans)
@@ -195,6 +265,9 @@ func runCase(r *hx.Run, sub uint64, ops []string) {
 	}
 	if len(ops) > 0 {
 		checkRetained(r, ops[len(ops)-1])
+	}
+	if !live {
+		return
 	}
 	for k, w := range worlds {
 		if w.nontrivial() {
@@ -240,7 +313,7 @@ func main() {
 		"non-trivial = shrink: the map was rebuilt by a threshold at least once and then read; rmap: a non-last key was deleted and a random pick answered; " +
 		"own: a caller wrote into a slice returned by Keys() and the map was changed afterwards; gh/pq: a live handle removed an element (gh: not the root, not the last) and 3 pops followed; tpq: 3 pushes then 3 elements popped; queue: more accepted offers than the capacity; ring: ToSlice read after wrapping; stack: pop after push after pop; distinct by sha256 of the request lines"
 	if lines := r.ReplayLines(); lines != nil {
-		runCase(r, 0, lines)
+		execCase(r, 0, lines, true)
 		r.Sample(r.CaseLines())
 		r.Finish()
 
